@@ -124,6 +124,17 @@ def _e2e(case, rec, rng):
     rec.check("e2e_rks_vs_uks_vmat", max(np.max(np.abs(vu[0] - vr)), np.max(np.abs(vu[1] - vr))) / vscale, TOL,
               mechanism="rks!=uks:vmat[%s]" % tagm)
     rec.check("e2e_nelec", abs(nu[0] + nu[1] - nr) / abs(nr), 1e-12, mechanism="rks!=uks:nelec")
+    # the same integrator in the other spin mode (what rks.to_uks() / uks.to_rks() hand over: the converted object shares
+    # _numint): polarised and unpolarised evaluations must still agree - added after a seeded spin factor frozen at the first
+    # evaluation of a shared SDMX plan
+    dmu_c = np.stack([dm / 2, dm / 2])
+    n2, e2_, v2_ = ksr._numint.nr_uks(mol, ksr.grids, ksr.xc, dmu_c)
+    rec.check("e2e_shared_integrator[rks-then-uks]", max(abs(float(e2_) - float(er)) / escale,
+                                                        float(max(np.max(np.abs(v2_[0] - vr)), np.max(np.abs(v2_[1] - vr)))) / vscale), TOL,
+              mechanism="rks!=uks:shared-integrator[%s]" % tagm, detail={"E_rks": float(er), "E_uks_same_integrator": float(e2_)})
+    n3, e3_, v3_ = ksu._numint.nr_rks(mol, ksu.grids, ksu.xc, dm)
+    rec.check("e2e_shared_integrator[uks-then-rks]", max(abs(float(e3_) - float(er)) / escale, float(np.max(np.abs(v3_ - vr))) / vscale), TOL,
+              mechanism="rks!=uks:shared-integrator[%s]" % tagm, detail={"E_rks": float(er), "E_rks_on_uks_integrator": float(e3_)})
     ni = ksr._numint
     xm = ni.xmix
     ni.xmix = 0.0
